@@ -69,6 +69,12 @@ CLAIMS = {
         "Trusts the map model; values containing the schema's own delimiters (| # @ on import lines, ': ' on graph lines, white space in the unquoted Attr|Version form) have no text form and are counted as excluded.",
         "DESIGN.md §7 C19",
     ),
+    "C04": (
+        "property-based testing (rapid) and native Go fuzzing of every enumerated entry point with a returns-or-errors oracle (recover, watchdog with confirmation, fatal-exit journal)",
+        "Generated-input search: every enumerated parsing/matching entry point (semver x 9 systems, pypi, maven POM pipeline, schema/graph text, the three resolvers over universes with arbitrary requirement strings and markers, the API-backed client over a fake service) is called with raw bytes, grammar-derived strings and mutated valid inputs; each call runs under recover with a watchdog (10 s, confirmed at 100 s), and a process-fatal error is attributed through a last-input journal. Quick = rapid; thorough adds coverage-guided go test -fuzz per group. Holds on everything explored; not a proof.",
+        "A call that is merely slow (Maven's quadratic trimming: 64 KiB of '-' parses in 12 s) is not reported as a hang; non-termination can only be suspected after the 100 s confirmation.",
+        "DESIGN.md §7 C04",
+    ),
 }
 
 NOT_YET = "check under construction in this session (not yet claimed)"
